@@ -1940,6 +1940,304 @@ def evaluator_reuse_check(ctx: Ctx, n_cases: int, fixed=None):
         ctx.case(("reuse",) + hp.key(), True, None)
 
 
+def hp_reference(prims, defs, root):
+    """independent restatement of a program's meaning from its SOURCE definitions: inline every call, callee argument i =
+    i-th call qubit, callee auxiliaries = the next free indices above everything live in the callers, released on return.
+    Returns (gates [(op, absolute qubits)], peak number of auxiliaries)"""
+    out = []
+    peak = [root[0]]
+
+    def run(hs, env, idx, depth):
+        if depth > 40:
+            raise RecursionError("reference: call depth")
+        n, a, body = hs
+        loc = list(env) + list(range(idx, idx + a))
+        idx += a
+        peak[0] = max(peak[0], idx)
+        for o, qs in body:
+            absq = tuple(loc[q] for q in qs)
+            if o in prims:
+                out.append((o, absq))
+            else:
+                run(defs[o], absq, idx, depth + 1)
+
+    run(root, tuple(range(root[0])), root[0], 0)
+    return out, peak[0] - root[0]
+
+
+def _snapshot(real, n, ms):
+    """what a linked program evaluates / expands / counts to, right now"""
+    from quri_parts.qsub.eval import AuxQubitCountEvaluatorHooks, GateCountEvaluatorHooks, QURIPartsEvaluatorHooks
+    from quri_parts.qsub.evaluate import Evaluator
+    from quri_parts.qsub.expand import full_expand
+
+    snap = {}
+
+    def attempt(name, f):
+        try:
+            snap[name] = ("ok", f())
+        except Exception as e:  # noqa: BLE001
+            snap[name] = ("err", exc_name(e))
+
+    attempt("eval", lambda: py_canon(n, [(GATE2ID.get(g.name, 999), tuple(g.control_indices) + tuple(g.target_indices))
+                                         for g in Evaluator(QURIPartsEvaluatorHooks()).run(ms).gates]))
+    attempt("expand", lambda: py_canon(n, [(real.id_of.get(m.op.base_id, 999), tuple(q.uid for q in qs))
+                                           for m, qs, _ in full_expand(ms).instructions]))
+    attempt("counts", lambda: {real.id_of.get(k, 999): v for k, v in Evaluator(GateCountEvaluatorHooks()).run(ms).items() if v})
+    attempt("aux", lambda: Evaluator(AuxQubitCountEvaluatorHooks()).run(ms))
+    return snap
+
+
+def _expected_snapshot(n, ref, ref_peak):
+    cnt = {}
+    for o, _ in ref:
+        cnt[o] = cnt.get(o, 0) + 1
+    g = py_canon(n, ref)
+    return {"eval": ("ok", g), "expand": ("ok", g), "counts": ("ok", cnt), "aux": ("ok", ref_peak)}
+
+
+def _vandalise(table):
+    """mutate a container the library handed out (or was handed): nested first, then the top level"""
+    from quri_parts.qsub.machineinst import is_subcall
+
+    for ms in list(table.values()):
+        for m, _, _ in ms.instructions:
+            if is_subcall(m):
+                m.sub = None
+        if isinstance(ms.instructions, list):
+            ms.instructions.clear()
+        else:
+            ms.instructions = ()
+        ms.aux_qubits = ()
+    try:
+        table.clear()
+    except Exception:  # noqa: BLE001 - a read-only mapping is fine
+        pass
+
+
+def linker_history_check(ctx: Ctx, n_cases: int, fixed=None):
+    """linked programs are values: along a history of Linker / link() / link_table() / compile steps - including tables derived
+    from `linker.calltable`, mutation of returned containers and of constructor arguments (nested, not only top level),
+    re-registration in a repository - every program produced so far still evaluates, fully expands and counts to what its
+    source definitions (at the time it was produced) say, after EVERY later step.  Only containers the library hands out
+    as copies (or copies on entry) are mutated; a table passed to the in-place `link()` is never touched again."""
+    import random
+
+    from quri_parts.qsub.codegen import CodeGenerator
+    from quri_parts.qsub.compile import compile_sub
+    from quri_parts.qsub.link import Linker, link, link_table
+    from quri_parts.qsub.resolve import SubRepository
+
+    seeds = list(fixed) if fixed is not None else [ctx.rng.getrandbits(40) for _ in range(n_cases * 4)]
+    done = 0
+    for seed in seeds:
+        if done >= n_cases and fixed is None:
+            break
+        r = random.Random(seed)
+        hp = gen_hp(r, "acyclic")
+        if any(o >= NSTD for o in hp.prims) or len(hp.subs) < 2:
+            continue
+        real = Real(hp)
+        prims = set(hp.prims)
+        prim_ops = [real.ops[o] for o in hp.prims]
+        cg = CodeGenerator(prim_ops)
+        defs = dict(hp.subs)
+        history = []
+        progs = []  # (label, step, msub, expected snapshot, n)
+        inp = {"entry": "linker-history", "case_seed": seed, "source": hp.to_json(), "history": history}
+
+        def entry_of(d):
+            if r.random() < 0.5:
+                return "root", hp.root
+            o = r.choice(sorted(d))
+            return f"sub of op {o}", d[o]
+
+        def produce(label, ms, d, ehs):
+            ref, pk = hp_reference(prims, d, ehs)
+            progs.append((label, len(history), ms, _expected_snapshot(ehs[0], ref, pk), ehs[0]))
+
+        def verify():
+            for label, born, ms, want, n in progs:
+                got = _snapshot(real, n, ms)
+                bad = [k for k in want if got[k] != want[k]]
+                if bad:
+                    k = bad[0]
+                    if born == len(history):
+                        ctx.witness("link-vs-reference", f"the program '{label}' does not {k} to what its source definitions say", inp,
+                                    {"got": str(got[k])[:300], "source": str(want[k])[:300]})
+                    else:
+                        ctx.witness("linked-program-changed", f"the program '{label}' (produced at step {born}) no longer agrees with its "
+                                    f"source definitions in `{k}` after step {len(history)}: {history[-1]}", inp,
+                                    {"now": str(got[k])[:300], "source": str(want[k])[:300]})
+                    return False
+            return True
+
+        def alternative(d):
+            """(op, other body of the same arity over primitive std ops) - preferably an op another sub calls"""
+            called = sorted({o for hs in d.values() for o, _ in hs[2] if o in d})
+            o = r.choice(called) if called and r.random() < 0.8 else r.choice(sorted(d))
+            n, a = d[o][0], r.randint(0, 1)
+            usable = [x for x in sorted(prims) if hp.arity[x] <= n + a]
+            body = _gen_hsub(r, n, a, usable, hp.arity, "acyclic", length=r.randint(1, 4))
+            return o, body
+
+        try:
+            table0 = {real.ops[o]: cg.lower(real.sub(hs)) for o, hs in defs.items()}
+            lk = Linker(table0)
+            history.append("lk = Linker(table0)")
+            label, ehs = entry_of(defs)
+            produce(f"lk.link({label})", lk.link(cg.lower(real.sub(ehs))), defs, ehs)
+            history[-1] += f"; lk.link({label})"
+            ok = verify()
+            repo, repo_defs = None, None
+            for _ in range(r.randint(2, 6)):
+                if not ok:
+                    break
+                step = r.choice(["link", "derive", "derive", "derive", "vandalise-returned", "vandalise-ctor-arg", "compile", "re-register"])
+                if step == "link":
+                    label, ehs = entry_of(defs)
+                    history.append(f"lk.link({label})")
+                    produce(history[-1], lk.link(cg.lower(real.sub(ehs))), defs, ehs)
+                elif step == "derive":
+                    t = lk.calltable
+                    if r.random() < 0.5:
+                        t = dict(t)
+                    o, alt = alternative(defs)
+                    d2 = dict(defs)
+                    d2[o] = alt
+                    t[real.ops[o]] = cg.lower(real.sub(alt))
+                    label, ehs = entry_of(d2)
+                    how = r.choice(["link", "link", "link_table", "Linker"])
+                    history.append(f"t = lk.calltable; t[op {o}] = {alt}; " + {"link": f"link({label}, t)", "link_table": "link_table(t)",
+                                                                               "Linker": f"Linker(t).link({label})"}[how])
+                    if how == "link":
+                        produce(history[-1], link(cg.lower(real.sub(ehs)), t), d2, ehs)
+                    elif how == "link_table":
+                        link_table(t)
+                    else:
+                        produce(history[-1], Linker(t).link(cg.lower(real.sub(ehs))), d2, ehs)
+                elif step == "vandalise-returned":
+                    history.append("t = lk.calltable; every SubCall.sub of t := None, instruction lists cleared, t.clear()")
+                    _vandalise(lk.calltable)
+                elif step == "vandalise-ctor-arg":
+                    history.append("table0 (the argument lk was constructed from): SubCall.sub := None, instruction lists cleared, clear()")
+                    _vandalise(table0)
+                elif step == "compile":
+                    repo, repo_defs = SubRepository(), dict(defs)
+                    for o, hs in repo_defs.items():
+                        repo.register_sub(real.ops[o], real.sub(hs))
+                    label, ehs = entry_of(repo_defs)
+                    history.append(f"repo = SubRepository(defs); compile_sub({label}, prims, repo)")
+                    produce(history[-1], compile_sub(real.sub(ehs), prim_ops, repo), repo_defs, ehs)
+                elif repo is not None:
+                    o, alt = alternative(repo_defs)
+                    repo_defs = dict(repo_defs)
+                    repo_defs[o] = alt
+                    repo.register_sub(real.ops[o], real.sub(alt))
+                    label, ehs = entry_of(repo_defs)
+                    history.append(f"repo.register_sub(op {o}, {alt}); compile_sub({label}, prims, repo)")
+                    produce(history[-1], compile_sub(real.sub(ehs), prim_ops, repo), repo_defs, ehs)
+                else:
+                    continue
+                ok = verify()
+        except InfraError:
+            raise
+        except Exception as e:  # noqa: BLE001
+            ctx.witness("linker-history-raises", f"a history of link steps on a well-formed acyclic program raises {type(e).__name__}: "
+                        f"{str(e)[:100]}", inp)
+        done += 1
+        ctx.traces += 1
+        ctx.count("linker_history_steps", str(len(history)))
+        ctx.case(("linker-history", seed), True, None)
+
+
+ENTRY_NAMES_KEY = "eval-noncanonical-entry-names-capture"
+
+
+def entry_names_check(ctx: Ctx, n_cases: int, fixed=None):
+    """the entry sub's local qubit names are arbitrary (a `Sub` is a public dataclass; SubBuilder merely happens to number them
+    0..n-1): renaming them injectively changes nothing - arguments are positional.  Checked for hierarchical evaluation, full
+    expansion and both counters against the reference inlining of the source program."""
+    import random
+
+    from quri_parts.qsub.codegen import CodeGenerator
+    from quri_parts.qsub.compile import compile_sub
+    from quri_parts.qsub.link import Linker
+    from quri_parts.qsub.qubit import Qubit
+    from quri_parts.qsub.resolve import SubRepository
+    from quri_parts.qsub.sub import Sub
+
+    seeds = list(fixed) if fixed is not None else [ctx.rng.getrandbits(40) for _ in range(n_cases * 3)]
+    done = 0
+    for seed in seeds:
+        if done >= n_cases and fixed is None:
+            break
+        r = random.Random(seed)
+        hp = gen_hp(r, "acyclic")
+        if any(o >= NSTD for o in hp.prims):
+            continue
+        n, a, body = hp.root
+        size = n + a
+        if not body:
+            continue
+        family = r.choice(["permutation", "permutation", "shift", "sparse", "aux-only-permutation"])
+        if family == "permutation":
+            names = r.sample(range(size), size)
+        elif family == "shift":
+            k = r.randint(1, 4)
+            names = [i + k for i in range(size)]
+        elif family == "sparse":
+            names = r.sample(range(3 * size + 2), size)
+        else:
+            names = list(range(n)) + r.sample(range(n, size), a)
+        real = Real(hp)
+        prim_ops = [real.ops[o] for o in hp.prims]
+        path = r.choice(["compile_sub", "linker"])
+        inp = {"entry": "entry-names", "case_seed": seed, "program": hp.to_json(), "path": path,
+               "entry_local_names": {"arguments": names[:n], "auxiliaries": names[n:]}}
+
+        def entry_sub(nm):
+            return Sub(tuple(Qubit(x) for x in nm[:n]), (), tuple(Qubit(x) for x in nm[n:]), (),
+                       tuple((real.ops[o], tuple(Qubit(nm[q]) for q in qs), ()) for o, qs in body))
+
+        def linked(nm):
+            if path == "compile_sub":
+                repo = SubRepository()
+                for o, hs in hp.subs.items():
+                    repo.register_sub(real.ops[o], real.sub(hs))
+                return compile_sub(entry_sub(nm), prim_ops, repo)
+            cg = CodeGenerator(prim_ops)
+            return Linker({real.ops[o]: cg.lower(real.sub(hs)) for o, hs in hp.subs.items()}).link(cg.lower(entry_sub(nm)))
+
+        try:
+            ref, pk = hp_reference(set(hp.prims), hp.subs, hp.root)
+            want = _expected_snapshot(n, ref, pk)
+            canon_ms = linked(list(range(size)))
+        except Exception:  # noqa: BLE001 - judged by run_batch
+            continue
+        if _snapshot(real, n, canon_ms) != want:
+            continue  # not a question of names: run_batch judges the canonical program
+        done += 1
+        ctx.traces += 1
+        ctx.count("entry_names", family)
+        try:
+            got = _snapshot(real, n, linked(names))
+        except Exception as e:  # noqa: BLE001
+            ctx.witness("entry-names:link", f"linking an entry sub with renamed local qubits raises {type(e).__name__}: {str(e)[:100]}", inp)
+            continue
+        bad = [k for k in want if got[k] != want[k]]
+        for k in bad:
+            if k == "eval":
+                ctx.witness(ENTRY_NAMES_KEY, "hierarchical evaluation of an entry sub whose local qubit names are not 0..n-1 in order "
+                            "differs from the source program and from its full expansion (which is right)", inp,
+                            {"hierarchical": str(got[k])[:300], "source": str(want[k])[:300]})
+                ctx.count("entry_names", "MISMATCH:" + family)
+            else:
+                ctx.witness("entry-names:" + k, f"`{k}` of an entry sub with renamed local qubits differs from the source program", inp,
+                            {"got": str(got[k])[:300], "source": str(want[k])[:300]})
+        ctx.case(("entry-names", seed), True, None)
+
+
 def allocator_check(ctx: Ctx, n_cases: int):
     """allocate.py against its restatement: a stack of consecutive indices starting at init_count"""
     from quri_parts.qsub.allocate import QubitAllocator, RegisterAllocator
@@ -2153,7 +2451,7 @@ def _order_witnesses(ctx: Ctx):
     """new keys first, at most two witnesses per key (the replay file keeps the first five)"""
     seen = {}
     out = []
-    for w in sorted(ctx.witnesses, key=lambda w: w["key"] in KNOWN_KEYS):
+    for w in sorted(ctx.witnesses, key=lambda w: w["key"] in KNOWN_KEYS or w["key"] == ENTRY_NAMES_KEY):
         seen[w["key"]] = seen.get(w["key"], 0) + 1
         if seen[w["key"]] <= 2:
             out.append(w)
@@ -2199,6 +2497,10 @@ def run(ctx: Ctx, replay=None) -> int:
                         unlinked_check(ctx, 1, fixed=[(hp, bool(inp.get("linked_levels")))])
                     if inp.get("entry") == "evaluator-reuse":
                         evaluator_reuse_check(ctx, 1, fixed=[hp])
+                if isinstance(inp, dict) and inp.get("entry") == "linker-history":
+                    linker_history_check(ctx, 1, fixed=[inp["case_seed"]])
+                if isinstance(inp, dict) and inp.get("entry") == "entry-names":
+                    entry_names_check(ctx, 1, fixed=[inp["case_seed"]])
                 if isinstance(inp, dict) and "wrapper_term" in inp:
                     t, subs = _detuple(inp["wrapper_term"]), {int(k): _detuple(v) for k, v in inp["wrapper_subs"].items()}
                     r = check_term(ctx, t, subs)
@@ -2215,11 +2517,13 @@ def run(ctx: Ctx, replay=None) -> int:
                 unlinked_check(ctx, ctx.n(120, 1500))
                 allocator_check(ctx, ctx.n(150, 2000))
                 evaluator_reuse_check(ctx, ctx.n(80, 1000))
+                linker_history_check(ctx, ctx.n(200, 3000))
+                entry_names_check(ctx, ctx.n(120, 1500))
             if not ctx.quick():
                 exhaustive_small(ctx)
     broken = broken or bool(ctx.disagreements)
     with ctx.timed("oracle_validation"):
-        have_new = any(w["key"] not in KNOWN_KEYS for w in ctx.witnesses)
+        have_new = any(w["key"] not in KNOWN_KEYS and w["key"] != ENTRY_NAMES_KEY for w in ctx.witnesses)
         mult = 4 if (broken and not have_new) else 1
         broken = broken and not have_new
         t0 = time.time()
